@@ -3,11 +3,11 @@ CONSTANTS
   Fault = "none"
   KeyRegime = "drkey"
   CheckSrcHost = TRUE
-  MaxDatagrams = 2
-  CIAs <- CIAs2
-  CHosts <- CHosts2
-  EpochLen = 1
-  MaxClock = 1
+  MaxDatagrams = 4
+  CIAs <- CIAsE
+  CHosts <- CHostsE
+  EpochLen = 3
+  MaxClock = 8
   Grace = 0
   KeepPathType = FALSE
   Modes <- ModesK
@@ -20,7 +20,7 @@ CONSTANTS
   PathExts <- PathExtsK
   RespExts <- RespExts1
   Pls <- PlsK
-  ReqAuths <- ReqAuthsK
+  ReqAuths <- ReqAuthsE2
   RespMuts <- RespMutsK
-INVARIANTS TypeOK MacSound AuthReplyVerifies ReplyAddressing ForwardRule AtMostOne EmitSeq
+INVARIANTS TypeOK MacSound AuthReplyVerifies ReplyAddressing ForwardRule AtMostOne
 CONSTRAINT KeysOnly
